@@ -36,6 +36,7 @@ def run(prog, R, tier="quick", only_rule=None):
     from rules.props import c20 as _c20
     _c20.c20d(prog, R, rid="C02.h")
     c02i(prog, R)
+    c02k(prog, R)
     # files a held snapshot reads are never overwritten by a new file of the same id (id counters only move forward)
     from rules.props import c04 as _c04
     _c04.c04c(prog, R, rid="C02.j")
@@ -431,3 +432,28 @@ def c02i(prog, R, rid="C02.i"):
                 ok = any(o.kind == "param" and o.what == 3 for o in origins(f, st["rv"].get("op")))
     r.check(ok, "tree::Tree::inner_compact|opts.mvcc_gc_watermark = the watermark parameter", "inner_compact does not hand its watermark on", f.where())
     r.floor(10)
+
+
+def c02k(prog, R, rid="C02.k"):
+    """The per-source snapshot filter lets *errors* through: a source item is a Result, and an Err (a block that failed its
+    checksum, an I/O error) has to reach the caller of the scan.  A filter that maps Err to `false` silently skips the damaged
+    block and the scan carries on with the next one."""
+    r = R.rule(rid, "the snapshot filter of a scan source passes errors through", "E")
+    n = 0
+    for p_, g in sorted(prog.fns.items()):
+        if not (p_.startswith("range::TreeIter::create_range::{closure") and any(c.sres == SEQNO_FILTER for c in g.calls)):
+            continue
+        ptys = [g.local_ty(i) or "" for i in range(1, g.argc + 1)]
+        if not any("Result<" in t for t in ptys):
+            continue      # memtable sources yield plain items
+        n += 1
+        rets = [st["rv"] for b in g.blocks for st in b["stmts"] if st["k"] == "assign" and st["to"]["l"] == 0 and "p" not in st["to"]]
+        passes_err = any(rv["k"] == "use" and rv["op"].get("o") == "const" and str(rv["op"].get("v")) in ("1", "true") for rv in rets)
+        swallow = [short(c.sres) for c in g.calls if c.sres.endswith(("Result::is_ok_and", "Result::ok", "Result::unwrap_or", "Result::is_ok",
+                                                                       "Result::map_or", "Result::unwrap_or_default"))]
+        r.check(passes_err and not swallow, "%s|Err(_) => true" % p_,
+                "a scan source's snapshot filter does not let Err items through (%s): a corrupted block is skipped silently and the scan "
+                "returns fewer keys" % (swallow or "no `true` for the Err case"), g.where(), str(swallow))
+    if n < 2:
+        r.anchor_missing("Result-yielding scan sources with a snapshot filter (found %d, confirmed 2)" % n)
+    r.floor(2)
